@@ -493,7 +493,7 @@ impl WorldB {
                     }
                 }
             }
-            K_JUNK | K_MUTATE | K_REPLAY | K_FORGEREQ | K_FORGERESP | K_FORGESESS | K_TAMPER | K_TOKENSURGERY | K_CROSSRESP | K_STALEHS | K_FLOODSTEAL | K_FORGEEXPIRY | K_REFRAME | K_STALERESP => self.adversary_op(op, obs),
+            K_JUNK | K_MUTATE | K_REPLAY | K_FORGEREQ | K_FORGERESP | K_FORGESESS | K_TAMPER | K_TOKENSURGERY | K_CROSSRESP | K_STALEHS | K_FLOODSTEAL | K_FORGEEXPIRY | K_REFRAME | K_STALERESP | K_TAGSQUAT => self.adversary_op(op, obs),
             _ => {}
         }
         for slot in 0..ns {
